@@ -429,6 +429,29 @@ def nested_axioms_module(rng: random.Random, syms=SYMS) -> Built:
     return Built(mod, {'nested_axioms'}, desc)
 
 
+def many_axioms_module(rng: random.Random) -> Built:
+    """100-200 small axioms (the memoisation analysis and the one-byte memory indices meet their limits around 128 / 256 entries);
+    the claims load a few of them, the last one included"""
+    PR = repo.mod('proof')
+    P = repo.P()
+    n = rng.choice((100, 126, 127, 128, 129, 130, 160, 200))
+    f = P.Symbol('f')
+    shape = rng.choice(('app', 'imp', 'mixed'))
+    axioms = []
+    for i in range(n):
+        x = P.EVar(i)
+        axioms.append(P.App(f, x) if shape == 'app' or (shape == 'mixed' and i % 2) else P.Implies(x, P.App(f, x)))
+    mod = PR.ProofExp(axioms=axioms)
+    pool = []
+    picks = sorted({n - 1, rng.randrange(n), 0} if rng.random() < 0.7 else {n - 1})
+    for i in picks:
+        th = mod.load_axiom(axioms[i])
+        mod.add_claim(th.conc)
+        mod.add_proof_expression(th)
+        pool.append((th, f'load_axiom(#{i} of {n})'))
+    return Built(mod, {'many_axioms', 'claims>=2' if len(picks) >= 2 else 'single_claim'}, [f'{n} axioms of shape {shape}; claims: axioms {picks}'], pool)
+
+
 def tautology_module(rng: random.Random) -> Built:
     """a module whose claims are proved by the tautology prover (derived-rule library end to end)"""
     T = repo.mod('tautology').Tautology
